@@ -577,4 +577,66 @@ def match_tolerance(repo: Repo, prop: str = PROP, rule: str = "C13.MATCH-TOLERAN
 match_tolerance.rule_id = "C13.MATCH-TOLERANCE"
 
 
-RULES = [rollback, probe_restore, who_writes_points, backport_rule, warning_filter, affine_kinds, link_relation, owns_geometry, angle_dimension, float_stores, backport_table, mirror_matrix, grid_quality, symmetry_exact, match_tolerance]
+def links_accumulate(repo: Repo, prop: str = PROP, rule: str = "C13.LINKS-ACCUMULATE") -> RuleRun:
+    """'linked vertices keep their translation, rotation or mirror relation to their leader' - all of them: a leader may have
+    several followers. Abstract run of Junction.add_link three times on one junction and of GridBase.update on it: every link
+    registered is kept, in order, and every follower is updated when the leader moves."""
+    r = RuleRun(prop, rule, floor=3, what="Junction.add_link keeps every link registered on a leader; GridBase.update moves every follower of the moved junction")
+    jcls = repo.cls("optimize.junction.Junction")
+    add = repo.find_method(jcls, "add_link")
+    r.require(add is not None, "Junction.add_link vanished")
+    j = Obj("leader-junction", cls=jcls)
+    j.set("links", [])
+    j.set("index", 0)
+    links = [Obj(f"link{k}", follower=Sym(f"follower-position{k}")) for k in range(3)]
+
+    def hook(ev, call: ast.Call, name):
+        if (name or "").split(".")[-1] == "IndexedLink":
+            args = [ev.eval(a) for a in call.args]
+            return Obj(f"indexed:{args[0]._name}", link=args[0], follower_index=args[1])
+        if isinstance(call.func, ast.Attribute) and call.func.attr == "update" and isinstance(ev.eval(call.func.value), Obj) and ev.eval(call.func.value)._name.startswith("link"):
+            ev.eval(call.func.value).set("updated", True)
+            return None
+        return NO_MATCH
+
+    try:
+        for k, ln in enumerate(links):
+            Evaluator(repo=repo, module=add.module, call_hook=hook).call_funcinfo(add, [j, ln, 10 + k])
+    except (Raised, NotEvaluable) as err:
+        raise AnalysisError(f"Junction.add_link not evaluable: {err}") from err
+    got = [(e.get("link")._name, e.get("follower_index")) for e in j.get("links")]
+    r.check(got == [("link0", 10), ("link1", 11), ("link2", 12)], add, "three links on one leader are all kept", f"after three add_link calls the leader junction holds {got}: followers registered earlier lose their link and stay behind when the leader moves", add.node, key="kept")
+    upd = repo.func("optimize.grid.GridBase.update")
+    grid = Obj("grid", cls=repo.cls("optimize.grid.GridBase"))
+    pts = {k: Sym(f"p{k}") for k in (0, 10, 11, 12)}
+    grid.set("points", pts)
+    grid.set("junctions", {0: j})
+    grid.set("quality", Sym("quality"))
+    j.set("quality", Sym("jq"))
+    try:
+        Evaluator(repo=repo, module=upd.module, call_hook=hook).call_funcinfo(upd, [grid, 0, Sym("new-leader-position")])
+    except (Raised, NotEvaluable) as err:
+        raise AnalysisError(f"GridBase.update not evaluable on a leader with three followers: {err}") from err
+    moved = {k: repr(v) for k, v in grid.get("points").items()}
+    want = {0: "<new-leader-position>", 10: "<follower-position0>", 11: "<follower-position1>", 12: "<follower-position2>"}
+    ok = all(moved.get(k, "").strip("<>") == v.strip("<>") for k, v in want.items()) and all(ln.has("updated") for ln in links)
+    r.check(ok, upd, "GridBase.update writes the leader and all three followers", f"GridBase.update on a leader with three followers leaves the points as {moved}; expected {want} with every link updated", upd.node, key="update-all")
+    r.check(all(ln.get("leader") == Sym("new-leader-position") for ln in links if ln.has("leader")) and all(ln.has("leader") for ln in links), upd, "every link is told the leader's new position", "GridBase.update does not hand the new leader position to every link of the junction", upd.node, key="leader-told")
+    return r
+
+
+links_accumulate.rule_id = "C13.LINKS-ACCUMULATE"
+
+
+def boundary(repo: Repo) -> RuleRun:
+    """'vertices without a clamp do not move': auto_optimize clamps the non-boundary points only - a point is on the boundary as soon as ONE of its cells has it on an open side. Same rule as C15.BOUNDARY."""
+    from ..report import rebrand
+    from . import c15
+
+    return rebrand(c15.boundary_rule(repo), PROP, "C13.BOUNDARY")
+
+
+boundary.rule_id = "C13.BOUNDARY"
+
+
+RULES = [rollback, probe_restore, who_writes_points, backport_rule, warning_filter, affine_kinds, link_relation, owns_geometry, angle_dimension, float_stores, backport_table, mirror_matrix, grid_quality, symmetry_exact, match_tolerance, links_accumulate, boundary]
